@@ -175,7 +175,10 @@ REGEX_ARGS = ["/,/", "/,/g", "/,/y", "/,/gy", "/(,)/", "/(,)|(b)/y", "/x*/", "/x
               "(function(){ var r = /,/g; r.lastIndex = 3; return r })()", "(function(){ var r = /a/; r.lastIndex = 2; return r })()"]
 REGEX_SECOND = {"split": [None, "undefined", "0", "1", "2", "-1", "100"],
                 "replace": ['"-"', '"[$&$1]"', "function(m){ return '<' + m + '>' }", 'function(){ return "$&$&" }'],
-                "replaceAll": ['"-"', '"[$&$1]"', "function(m){ return '<' + m + '>' }"]}
+                "replaceAll": ['"-"', '"[$&$1]"', "function(m){ return '<' + m + '>' }"],
+                # methods that take a search STRING: a regular expression is refused or converted to its source text
+                "includes": [None, "1"], "startsWith": [None, "1"], "endsWith": [None, "1"], "indexOf": [None, "1"], "lastIndexOf": [None],
+                "concat": [None], "charAt": [None], "repeat": [None], "slice": [None], "substring": [None]}
 
 
 def regex_arg_cases():
@@ -259,9 +262,9 @@ def core_spaces():
                      "s.length and s[k] for k over the grid plus canonical / non-canonical index strings",
                      "14 receivers x 25"))
     sp.append(_space("c16_regex_args", regex_arg_cases,
-                     "split / replace / replaceAll x 14 receivers x %d regular-expression arguments (global, sticky, captures, empty "
+                     "split / replace / replaceAll (and the methods that take a search string or a number) x 14 receivers x %d regular-expression arguments (global, sticky, captures, empty "
                      "matches, left-over lastIndex) x limits / replacements; the regex's lastIndex after the call is logged" % len(REGEX_ARGS),
-                     "3 methods x 14 x %d x <= 7" % len(REGEX_ARGS)))
+                     "13 methods x 14 x %d x <= 7" % len(REGEX_ARGS)))
     sp.append(_space("c16_throw_once", throw_once_cases,
                      "every method x argument position x 5 arguments whose conversion throws on the first attempt only (object, array "
                      "element, nested array): the call is made twice with the same argument object, then the argument is converted "
